@@ -522,6 +522,15 @@ impl rustc_driver::Callbacks for Cb {
                     }
                     continue;
                 }
+                DefKind::Static { mutability, nested, .. } => {
+                    // the initialiser of an immutable static (a literal table kept in a `static`): a body of kind "static"
+                    if mutability.is_not() && !nested {
+                        let path = tcx.def_path_str(did);
+                        let body = tcx.mir_for_ctfe(did);
+                        cx.body(&mut f, &path, "static", did, body, "");
+                    }
+                    continue;
+                }
                 _ => continue,
             };
             let path = tcx.def_path_str(did);
